@@ -74,10 +74,12 @@ func (R *Repository) AddCRL(crlLocations *core.CRLLocations, chains *core.Certif
 		}
 	}
 
-	entry.entryLock.Lock()
-	defer entry.entryLock.Unlock()
-	if entry.LastUpdateSignatureVerifyFailed {
+	entry.entryLock.RLock()
+	lastUpdateSignatureVerifyFailed := entry.LastUpdateSignatureVerifyFailed
+	entry.entryLock.RUnlock()
+	if lastUpdateSignatureVerifyFailed {
 		//check if the chain contains a new valid signing cert
+		//(tryUpdateSignatureCertFromChain takes the write lock itself and checks the flag again)
 		R.tryUpdateSignatureCertFromChain(entry, chains)
 	}
 	return crlAdded, nil
